@@ -16,6 +16,7 @@ mod c06;
 mod c17;
 mod c03;
 mod c08;
+mod c19;
 
 fn main() {
     // silence the default panic message: panics are observations here
@@ -37,6 +38,7 @@ fn main() {
         "c17" => c17::run(rest),
         "c03" => c03::run(rest),
         "c08" | "c09" => c08::run(rest),
+        "c19" => c19::run(rest),
         "c01" | "c02" => c01::run(rest),
         other => {
             eprintln!("unknown subcommand {other}");
